@@ -644,7 +644,13 @@ def declined_cleanup(prog, an, rep):
     ok = len(rms) == 1 and len(wb) == 1 and rloop is not None and \
         isinstance(wb[0], ast.Call) and \
         src(wb[0].func) == 'branch_factory' and len(wb[0].args) == 2 and \
-        src(wb[0].args[1]) == rloop.target.elts[0].id
+        isinstance(rloop.target, ast.Tuple) and \
+        isinstance(rloop.target.elts[0], ast.Name) and all(
+            # the name of the pair, or the same name built again
+            (isinstance(v, ast.Name) and v.id == rloop.target.elts[0].id) or
+            (string_template(v) or ('',))[0] == 'w/{}/{}' or
+            (isinstance(v, ast.Constant) and v.value is None)
+            for v in value_leaves(f, wb[0].args[1]))
     rep.evaluated()
     rep.check(ok, R, f.qname + ': removes exactly the branch of that name',
               f.where(), 'removes %s bound to %s' % (
